@@ -31,6 +31,7 @@ func TestCheck(t *testing.T) {
 	tos := bftsim.TimeoutConfigs()
 	prefixes := []string{"split", "hidden-lock", "commit-withheld", "lock-replay-reset", "lock-replay-reset", "replay", "random", "crash"}
 	n := core.Pick(70, 8000)
+	const anyKind = 60 // see the second restatement below
 	hist := map[int]int{}
 	var histMu = make(chan struct{}, 1)
 	histMu <- struct{}{}
@@ -144,7 +145,7 @@ func TestCheck(t *testing.T) {
 				break
 			}
 			if n%64 == 0 {
-				if led, _ := honestLedAfter(); led > H+1 {
+				if led, faulty := honestLedAfter(); led > H+1 || led+faulty > anyKind+4 {
 					break
 				}
 			}
@@ -176,9 +177,25 @@ func TestCheck(t *testing.T) {
 			hist[-1]++
 		}
 		histMu <- struct{}{}
+		total := led + faulty
+		for _, b := range []int{2, 5, 10, 20, 40, 1 << 30} {
+			if total <= b {
+				if done {
+					run.Count(fmt.Sprintf("committed_within_%d_rounds_after_gst_of_any_kind", b), 1)
+				}
+				break
+			}
+		}
 		switch {
 		case done:
 			run.Count("cases_committed_after_gst", 1)
+		case total > anyKind:
+			// second restatement: whatever the rounds looked like (Byzantine leaders, replicas out of phase), the network has
+			// been synchronous for more than `anyKind` rounds and nothing was committed. On the unchanged code 8000 thorough
+			// cases needed at most 20 rounds of any kind (6114 of them at most 2); after GST only the replicas' own timers can
+			// keep them out of phase, so this is a failure of the protocol's round synchronisation, not of the network.
+			run.Violation(fmt.Sprintf("no-commit-within-%d-rounds-of-any-kind-after-gst prefix=%s", anyKind, sc), "^"+name+"$",
+				map[string]any{"case": c.Describe(s), "healed_at": s.HealedAt, "byz_quiet": byzQuiet, "honest_led_in_phase_rounds": led, "other_rounds": faulty, "timeouts": c.Cfg.Timeouts})
 		case led > H:
 			tbl := []string{}
 			for _, i := range s.Honest() {
